@@ -245,6 +245,13 @@ pub fn run(p: &Params) -> Report {
             v.extend(nested_loops(k, 2, &[Op::LoadImm(9), pushi(1), Op::Add, Op::StoreImm(9)]));
             v
         }));
+        // nested loops that share the end of their bodies strictly inside the program (something follows)
+        fams.push(("nested-loops,iters=3,shared-inner-end,trailing-code".into(), k as u64, {
+            let mut v = vec![pushi(0), Op::StoreImm(9)];
+            v.extend(nested_loops(k, 3, &[Op::LoadImm(9), pushi(1), Op::Add, Op::StoreImm(9)]));
+            v.extend([Op::LoadImm(9), Op::Noop]);
+            v
+        }));
         // claimed body lengths at the u16 maximum (clipped by the weigher, overrun at run time)
         let mut v = vec![];
         for _ in 0..k {
